@@ -300,10 +300,94 @@ func runBulk(w *core.Worker, c BulkCase) {
 	}
 }
 
+
+// ---- element types with identity: pointers and structs holding pointers. Two elements are the
+// same only if == says so; elements that merely look alike (equal pointees) are different.
+
+type PtrCase struct {
+	Linked bool `json:"linked"`
+	N      int  `json:"n"` // elements pushed
+	Pops   int  `json:"pops"`
+}
+
+type pbox struct {
+	p   *int
+	tag string
+}
+
+func runPtr(w *core.Worker, c PtrCase) {
+	nm := "stack"
+	if c.Linked {
+		nm = "lstack"
+	}
+	mkv := func(i int) *int { v := i % 2; return &v } // many equal pointees, all distinct pointers
+	held := []*int{}
+	never := mkv(0)
+	p := core.Catch(func() {
+		var push func(*int)
+		var pop func() *int
+		var search func(*int) bool
+		var size func() int
+		if c.Linked {
+			first := mkv(0)
+			s := stack.NewLinked(first)
+			held = append(held, first)
+			push, pop, search, size = s.Push, s.Pop, s.Search, s.Size
+		} else {
+			s := stack.New[*int]()
+			push, pop, search, size = s.Push, s.Pop, s.Search, s.Size
+		}
+		for i := 0; i < c.N; i++ {
+			v := mkv(i)
+			push(v)
+			held = append(held, v)
+		}
+		var gone []*int
+		for k := 0; k < c.Pops && len(held) > 0; k++ {
+			top := held[len(held)-1]
+			got := pop()
+			if !c.Linked && got != top {
+				w.Violation(nm+".pop-value", fmt.Sprintf("pointer elements: Pop returned %p, the top was %p", got, top))
+				return
+			}
+			held = held[:len(held)-1]
+			gone = append(gone, top)
+		}
+		if size() != len(held) {
+			w.Violation(nm+".size", fmt.Sprintf("pointer elements: Size()=%d, %d held", size(), len(held)))
+			return
+		}
+		for _, h := range held {
+			if !search(h) {
+				w.Violation(nm+".search", fmt.Sprintf("pointer elements: Search(%p) is false for a held element", h))
+				return
+			}
+		}
+		for _, g := range append(gone, never) {
+			if search(g) {
+				w.Violation(nm+".search", fmt.Sprintf("pointer elements: Search(%p -> %d) is true although that pointer is not held (%d held elements with equal pointees exist)", g, *g, len(held)))
+				return
+			}
+		}
+		// structs with a pointer field
+		sb := stack.New[pbox]()
+		a, b := 1, 1
+		sb.Push(pbox{&a, "x"})
+		if sb.Search(pbox{&b, "x"}) || !sb.Search(pbox{&a, "x"}) {
+			w.Violation("stack.search", "struct elements with a pointer field: Search confuses {&a,x} with {&b,x} (equal pointees, different pointers)")
+		}
+	})
+	if p != nil {
+		w.Violation(nm+".panic:pointer-elements", fmt.Sprintf("pointer elements panicked: %v", p))
+		return
+	}
+	w.NonTrivial(core.HashString(core.JSON(c)))
+}
+
 func TestProp(t *testing.T) {
 	r := core.Start(t, "C06")
 	defer r.Finish()
-	r.Rule("cases = operation sequences on stack.Stack[int] and stack.LStack[int] (the linked one starting from its mandatory element) checked against a slice model: every Pop value, Size/Peek/Search of every probe value after every Pop and after the last step (sweep) or every step (random), then a drain that Peeks before each Pop and one Pop on the empty stack; non-trivial = at least 2 operations; stack-bulk: phases of hundreds to thousands of pushes of unique values and pops (to empty, beyond, almost, partly) with Size/Peek after every operation, every Pop value, membership probes after every phase; non-trivial = at least 300 elements were held at once; distinct by hash of the case")
+	r.Rule("cases = operation sequences on stack.Stack[int] and stack.LStack[int] (the linked one starting from its mandatory element) checked against a slice model: every Pop value, Size/Peek/Search of every probe value after every Pop and after the last step (sweep) or every step (random), then a drain that Peeks before each Pop and one Pop on the empty stack; non-trivial = at least 2 operations; stack-bulk: phases of hundreds to thousands of pushes of unique values and pops (to empty, beyond, almost, partly) with Size/Peek after every operation, every Pop value, membership probes after every phase; non-trivial = at least 300 elements were held at once; pointer-elements: the same containers over *int (all pointers distinct, pointees equal) and structs with a pointer field: identity of what is returned, Search true exactly for the held pointers; distinct by hash of the case")
 
 	alpha := []Op{{"push", 1}, {"push", 2}, {"push", 3}, {K: "pop"}, {K: "peek"}}
 	L := r.Pick(8, 10)
@@ -379,4 +463,14 @@ func TestProp(t *testing.T) {
 			emit(c)
 		}
 	}, runBulk)
+
+	core.Monitor(r, "stack-pointer-elements", 0, func(emit func(PtrCase)) {
+		for _, l := range []bool{false, true} {
+			for n := 0; n <= 9; n++ {
+				for pops := 0; pops <= n+1; pops++ {
+					emit(PtrCase{Linked: l, N: n, Pops: pops})
+				}
+			}
+		}
+	}, runPtr)
 }
